@@ -116,7 +116,7 @@ class Tracer:
         self.n += 1
         self.events.append(ev)
         f = self.fault
-        if f and f[1] == k and not self.triggered:
+        if f and (f[1] == k or f[1] == ev[0]) and not self.triggered:
             self.triggered = True
             if f[0] == "crash":
                 self.dead = True
@@ -308,18 +308,11 @@ class Scenario:
         self.new_ver = 8
         # the complete new document, produced in a scratch directory by the code itself
         if payload != "bad":
-            d2 = tempfile.mkdtemp(prefix="verif-c15s-")
-            try:
-                s2 = self.lf.LocalFileObjectStore(d2)
-                s2.add(make_obj(TID, 8, big=self.big))
-                with open(os.path.join(d2, hash_of(TID) + ".json"), "rb") as f:
-                    self.docs[5] = f.read()
-            finally:
-                shutil.rmtree(d2, ignore_errors=True)
-        self.stale = b'{\n    "data": {\n        "stale'
+            self.docs[5] = self._scratch_doc(8)
+        # a leftover of an earlier, interrupted write of the same identifier — produced by the code under test itself
+        self.docs[6] = self._scratch_doc(6)
         if stale_tmp:
-            with open(os.path.join(self.dir, hash_of(TID) + ".json.tmp"), "wb") as f:
-                f.write(self.stale)
+            self._raw_run(6, ["crash", "close", 29])
         self.snapshot = {n: self.read(n) for n in os.listdir(self.dir)}
 
     def read(self, name: str) -> bytes:
@@ -348,7 +341,7 @@ class Scenario:
         for tag, full in self.docs.items():
             if b == full:
                 return ["full", tag]
-        for full in list(self.docs.values()) + [self.stale + b"X"]:
+        for full in self.docs.values():
             if full.startswith(b):
                 return ["prefix", len(b)]
         return ["other", len(b)]
@@ -359,35 +352,54 @@ class Scenario:
     def model_fs(self) -> List[Any]:
         out = []
         for n, b in self.snapshot.items():
-            nm = self.names[n]
-            if nm[0] == "tmp":
-                out.append([nm, [6, len(b), len(b) + 1]])
-            else:
-                tag = [t for t, full in self.docs.items() if full == b][0]
-                out.append([nm, [tag, len(b), len(b)]])
+            nm = self.names.get(n, ["doc", n])
+            tags = [t for t, full in self.docs.items() if full == b]
+            out.append([nm, [tags[0], len(b), len(b)] if tags else [6, len(b), len(self.docs[6])]])
         return out
 
     def describe(self) -> Dict[str, Any]:
         return {"kind": self.kind, "n_others": self.n_others, "payload": self.payload, "stale_tmp": self.stale_tmp, "dup": self.dup}
 
+    def _scratch_doc(self, ver: int) -> bytes:
+        d2 = tempfile.mkdtemp(prefix="verif-c15s-")
+        try:
+            s2 = self.lf.LocalFileObjectStore(d2)
+            s2.add(make_obj(TID, ver, big=self.big))
+            with open(os.path.join(d2, hash_of(TID) + ".json"), "rb") as f:
+                return f.read()
+        finally:
+            shutil.rmtree(d2, ignore_errors=True)
+
     # one faulted run -------------------------------------------------------------------------------------
     def run(self, fault: Optional[List[Any]]) -> Dict[str, Any]:
         self.restore()
+        return self._raw_run(self.new_ver, fault, bad=self.payload == "bad")
+
+    def _raw_run(self, ver: int, fault: Optional[List[Any]], bad: bool = False) -> Dict[str, Any]:
         store = self.lf.LocalFileObjectStore(self.dir)
-        if self.kind == "add":
-            x = make_obj(TID, self.new_ver, big=self.big, bad=self.payload == "bad")
+        if self.kind == "add" and not os.path.exists(os.path.join(self.dir, hash_of(TID) + ".json")) or self.dup:
+            x = make_obj(TID, ver, big=self.big, bad=bad)
+            call = "add"
+        elif self.kind == "add":
+            x = make_obj(TID, ver, big=self.big, bad=bad)
+            call = "add"
         else:
-            x = store.get_identifiable(TID)
-            x.get_referable("v").value = self.new_ver
-            if self.payload == "bad":
+            try:
+                x = store.get_identifiable(TID)
+            except Exception as e:
+                return {"events": [], "raised": "unreadable-before-call:" + type(e).__name__, "cached": False, "bound": False,
+                        "store": store, "x": None, "triggered": False}
+            x.get_referable("v").value = ver
+            if bad:
                 spoil(x)
+            call = "commit"
         tr = Tracer(self.lf, self.dir, fault)
         tr.install(store)
         raised: Any = None
         tr.active = True
         try:
             try:
-                if self.kind == "add":
+                if call == "add":
                     store.add(x)
                 else:
                     x.commit()
@@ -492,6 +504,13 @@ def fault_label(events, f) -> str:
 
 # ------------------------------------------------------------------------------------------------ correspondence
 
+def capped(faults, rng: random.Random, cap: int):
+    """sequences with hundreds of write calls (streaming encoders): bound the work, keep the first steps and a sample"""
+    if len(faults) <= cap:
+        return faults
+    return faults[:60] + rng.sample(faults[60:], cap - 60)
+
+
 def correspond(ctx: C.Ctx, cov: C.Coverage) -> List[C.Disagreement]:
     cov.rule = ("per scenario (add|commit x 0-3 other objects x payload accepted/rejected/large x stale temp file x duplicate add): the "
                 "traced step sequence of the fault-free call must equal the model's program; then one run per fault = exception at "
@@ -514,7 +533,7 @@ def correspond(ctx: C.Ctx, cov: C.Coverage) -> List[C.Disagreement]:
             lines.append(["program", sc.kind, TID, payload])
             impl_out.append(("program", events))
             cases.append({"scenario": sc.describe(), "fault": None})
-            for f in faults_for(events, sc.total(), ctx.tier, rng):
+            for f in capped(faults_for(events, sc.total(), ctx.tier, rng), rng, ctx.budget(300, 20000)):
                 r = sc.run(f)
                 ids, ok, n = sc.listing()
                 lines.append(["write", "fixed", sc.kind, TID, payload, f or ["none"], sc.model_fs()])
@@ -564,6 +583,10 @@ def check_case(case: Dict[str, Any], sc: Optional[Scenario] = None) -> Optional[
         r0_events = case.get("events")
         r = sc.run(f)
         events = r0_events or r["events"]
+        if str(r["raised"]).startswith("unreadable"):
+            return C.Failing(f"lfs-write:{d['kind']}:after-interrupted-write:target-unreadable",
+                             "after an earlier interrupted write the stored object can no longer be read: " + r["raised"],
+                             {"scenario": d, "fault": f})
         lab = fault_label(events, f) if f else ("reject" if d["payload"] == "bad" else "none")
         if d["payload"] == "bad" and f and r["raised"] == "ValueError":
             lab = "reject"
@@ -654,9 +677,7 @@ def oracle(ctx: C.Ctx, cov: C.Coverage) -> List[C.Failing]:
             if ctx.tier == "thorough":
                 faults += [f for f in faults_for(events, sc.total(), "thorough", rng) if f and f[0] == "crash" and f[2] % 7 == 3]
             # pinned-style sequences have hundreds of writes: bound the work, keep every step kind
-            if len(faults) > 700:
-                keep = faults[:60] + rng.sample(faults[60:], 640)
-                faults = keep
+            faults = capped(faults, rng, ctx.budget(300, 1500))
             for f in faults:
                 g = check_case({"scenario": sc.describe(), "fault": f, "events": events}, sc)
                 runs += 1
